@@ -9,6 +9,7 @@ package datastore
 import (
 	"bytes"
 	"context"
+	"errors"
 	"strings"
 	"time"
 
@@ -219,6 +220,37 @@ func VerifCancelRestores() {
 	if verifrt.Param("retry", 0) == 1 {
 		ends = 3
 	}
+	if verifrt.Param("repeat", 0) == 1 {
+		// the client repeats the TransactionSet under the id of the pending transaction (the answer
+		// got lost; or a dry run under that id) before it cancels / lets the timeout pass: the
+		// repeat is refused and the pending transaction - the only record of what has to be
+		// restored - stays as it is
+		ends = 2
+		rep := verifrt.Choice("repeat", 3)
+		if rep != 0 {
+			ctx, cancel := context.WithTimeout(context.Background(), 50*time.Millisecond)
+			var tis []*types.TransactionIntent
+			for _, r := range reqs {
+				ti, terr := env.ds.SdcpbTransactionIntentToInternalTI(ctx, r.toProto(sc))
+				if terr != nil {
+					panic(terr)
+				}
+				tis = append(tis, ti)
+			}
+			_, rerr := env.ds.TransactionSet(ctx, "t1", tis, nil, vTxnTimeout, rep == 2)
+			cancel()
+			// (that the repeat is refused is C06's business; here only what it does to the rollback)
+			if errors.Is(rerr, ErrDatastoreLocked) {
+				verifrt.Reach("set-repeated-and-refused")
+			}
+			for i := payloadsBefore; i < len(env.tgt.Updates); i++ {
+				dev.applyPayload(sc, env.tgt.Updates[i], env.tgt.Deletes[i], "C05")
+			}
+			setsBefore = env.tgt.Sets
+			payloadsBefore = len(env.tgt.Updates)
+			verifrt.Reach("set-repeated")
+		}
+	}
 	switch verifrt.Choice("end", ends) {
 	case 0:
 		cerr := env.ds.TransactionCancel(context.Background(), "t1")
@@ -293,19 +325,31 @@ func VerifReapplyNoop() {
 	env.tgt.AllEncodings = true
 	pre := vArbitraryState(sc)
 	pre.install(env)
-	oi := verifrt.Choice("req.owner", len(sc.owners))
-	o := sc.owners[oi]
-	verifrt.Assume(pre.ownerLive(o))
-	req := &vRequest{owner: o, prio: pre.prio[o], pres: map[string]bool{}, val: map[string]vVal{}}
-	for _, l := range sc.leaves {
-		if l.keyOf == "" && pre.pres[l.id][o] {
-			req.pres[l.id] = true
-			req.val[l.id] = pre.val[l.id][o]
+	verbatim := func(o string) *vRequest {
+		verifrt.Assume(pre.ownerLive(o))
+		req := &vRequest{owner: o, prio: pre.prio[o], pres: map[string]bool{}, val: map[string]vVal{}}
+		for _, l := range sc.leaves {
+			if l.keyOf == "" && pre.pres[l.id][o] {
+				req.pres[l.id] = true
+				req.val[l.id] = pre.val[l.id][o]
+			}
 		}
+		return req
+	}
+	oi := verifrt.Choice("req.owner", len(sc.owners))
+	reqs := []*vRequest{verbatim(sc.owners[oi])}
+	if verifrt.Param("intents", 1) >= 2 && len(sc.owners) >= 2 {
+		// param "intents" = 2: ONE transaction re-submits two live intents verbatim (the
+		// remaining owners' entries are the competition outside the transaction)
+		k := verifrt.Choice("req2.owner", len(sc.owners)-1)
+		if k >= oi {
+			k++
+		}
+		reqs = append(reqs, verbatim(sc.owners[k]))
 	}
 	before := vSnapshot(env.model)
 	verifrt.Reach("state-built")
-	rsp, err := vStep(env, sc, "t1", []*vRequest{req}, false)
+	rsp, err := vStep(env, sc, "t1", reqs, false)
 	verifrt.Assert(err == nil && !vHasErrors(rsp), "valid-request-accepted")
 	if err != nil {
 		return
